@@ -22,6 +22,15 @@ SO = {"threads": 1, "time_limit": 10}
 
 def gen_cases(tier, seed):
     cases = []
+    # corpus 'hourglass': every allowed weight exceeds every flow value and all paths share a zero-flow waist edge, so the error / slack on
+    # the waist reaches the SUM of the allowed weights
+    for f_, wst in ((9, 0), (4, 1), (7, 0)):
+        hn = ["a1", "a2", "m", "n", "b1", "b2"]; he = [("a1", "m"), ("a2", "m"), ("m", "n"), ("n", "b1"), ("n", "b2")]
+        hf = {("a1", "m"): f_, ("a2", "m"): f_, ("m", "n"): wst, ("n", "b1"): f_, ("n", "b2"): f_}
+        for wt_ in ("int", "float"):
+            hb = {"nodes": hn, "edges": he, "flow": {e: (float(v) if wt_ == "float" else v) for e, v in hf.items()}, "planted": [], "wt": wt_, "mode": "edge"}
+            sup_ = [f_ + 1, f_ + 1] if wt_ == "int" else [f_ + 1.0, f_ + 1.0]
+            cases.append({"cyc": False, "mode": "edge", "wt": wt_, "k": 2, "ignore": [], "scale": [], "starts": [], "ends": [], "superset": sup_, "planted": [], "spec": I.spec_of(hb)})
     n = 300 if tier == "quick" else 3500
     for i in range(n):
         rng = gen.rng_for("C07", seed, i)
@@ -53,6 +62,10 @@ def gen_cases(tier, seed):
         if not cyc and rng.random() < 0.15:
             ws = [w for _, w in base["planted"]][:3] or [1]
             c["superset"] = ws + [rng.choice([1, 2]) if wt == "int" else 0.5] + [rng.choice([1, 3]) if wt == "int" else 1.5]
+            if rng.random() < 0.35:
+                # every allowed weight exceeds every flow value: the errors (slacks) pile up beyond the largest flow
+                mx = max(base["flow"].values()) or 1
+                c["superset"] = [(mx + rng.choice([1, 2])) if wt == "int" else float(mx + 0.5)] * rng.randint(1, 3)
         if not node and rng.random() < 0.3 and c["superset"] is None:
             # the caller's assumption "these edges appear in an optimal solution" (explicit list, or the edges at/above a weight percentile)
             if cyc and rng.random() < 0.5:
